@@ -81,8 +81,17 @@ def h_kneighbors(ctx):
     d = ctx.reals("d", npts)
     qsh = tuple(cfg["qshape"])
     qe, qn = ctx.reals("qe", qsh), ctx.reals("qn", qsh)
-    kn = vd.KNeighbors(k=k, reduction=_reduction(ctx, red))
-    if cfg.get("dshape"):
+    ctor = cfg.get("ctor")
+    if ctor == "default":  # documented defaults: k=1, mean
+        kn = vd.KNeighbors()
+    elif ctor == "k_only":
+        kn = vd.KNeighbors(k=k)
+    else:
+        kn = vd.KNeighbors(k=k, reduction=_reduction(ctx, red))
+    extra = cfg.get("extra")
+    if extra:  # a third (vertical) coordinate is documented as ignored
+        kn.fit((e, n, ctx.reals("up", npts)), d)
+    elif cfg.get("dshape"):
         dsh = tuple(cfg["dshape"])
         d2 = d.reshape(dsh)
         d2 = np.asfortranarray(d2) if cfg.get("layout_mem") == "F" else np.ascontiguousarray(d2.T).T
@@ -92,7 +101,7 @@ def h_kneighbors(ctx):
     d2s = {}
     for idx in np.ndindex(*qsh):
         d2s[idx] = _general_position(ctx, qe[idx], qn[idx], pts)
-    pred = kn.predict((qe, qn))
+    pred = kn.predict((qe, qn, ctx.reals("qup", qsh))) if extra else kn.predict((qe, qn))
     ctx.claim("prediction has the shape of the query arrays", np.shape(pred) == qsh)
     if np.shape(pred) != qsh:
         return
@@ -153,7 +162,11 @@ def h_median_distance(ctx):
         sc = (a, c)
     else:
         sc = (1, 1)
-    out = vd.median_distance((e, n), k_nearest=k, **kw)
+    coords = (e, n, ctx.reals("up", sh)) if cfg.get("extra") else (e, n)
+    if cfg.get("default_k"):
+        out = vd.median_distance(coords, **kw)
+    else:
+        out = vd.median_distance(coords, k_nearest=k, **kw)
     ctx.claim("result has the shape of the coordinate arrays", np.shape(out) == sh)
     if np.shape(out) != sh:
         return
@@ -183,7 +196,10 @@ def h_distance_mask(ctx):
         kw["projection"] = lambda x, y: (x * a + pb, y * c + pd)
         sc = (a, c)
     d2s = {idx: _general_position(ctx, qe[idx], qn[idx], pts, sc) for idx in np.ndindex(*qsh)}
-    mask = vd.distance_mask((e, n), maxdist, coordinates=(qe, qn), **kw)
+    if cfg.get("extra"):  # extra (vertical) coordinates on either side are ignored
+        mask = vd.distance_mask((e, n, ctx.reals("up", npts)), maxdist, coordinates=(qe, qn, ctx.reals("qup", qsh)), **kw)
+    else:
+        mask = vd.distance_mask((e, n), maxdist, coordinates=(qe, qn), **kw)
     ctx.claim("mask has the shape of the query arrays", np.shape(mask) == qsh)
     if np.shape(mask) != qsh:
         return
@@ -203,9 +219,21 @@ def h_mask_grid(ctx):
     vals = ctx.reals("v", (len(gn), len(ge_)))
     dims = tuple(cfg.get("dims", ("northing", "easting")))
     grid = xr.Dataset({"scalars": (dims, vals)}, coords={dims[1]: ge_, dims[0]: gn})
-    out = vd.distance_mask((e, n), maxdist, grid=grid)
+    kw = {}
+    sc = (1, 1)
+    if cfg.get("proj"):
+        a, c = Fraction(cfg["proj"][0]), Fraction(cfg["proj"][1])
+        if cfg.get("offsets"):  # concrete offsets: a wrong nearest point cannot hide behind a path split
+            pb, pd = (Fraction(v) if ctx.sym else float(Fraction(v)) for v in cfg["offsets"])
+        else:
+            pb, pd = ctx.real("pb"), ctx.real("pd")
+        if not ctx.sym:
+            a, c = float(a), float(c)
+        kw["projection"] = lambda x, y: (x * a + pb, y * c + pd)
+        sc = (a, c)
+    out = vd.distance_mask((e, n), maxdist, grid=grid, **kw)
     ee, nn = np.meshgrid(ge_, gn)
-    arr = vd.distance_mask((e, n), maxdist, coordinates=(ee, nn))
+    arr = vd.distance_mask((e, n), maxdist, coordinates=(ee, nn), **kw)
     ctx.claim("grid form keeps dims and shape", And(tuple(out["scalars"].dims) == dims, out["scalars"].shape == (len(gn), len(ge_))))
     ov = out["scalars"].values
     for i in range(len(gn)):
@@ -215,10 +243,10 @@ def h_mask_grid(ctx):
             ctx.claim("grid form blanks exactly the cells where the array form on meshgrid(dims[1], dims[0]) is False", isnan == (not bool(arr[i, j])))
             if not isnan:
                 ctx.claim("kept cells keep their value", eq(v, vals[i, j]))
-            near = And(ge(maxdist, 0), Or([le((_x(ctx, ge_[j]) - _x(ctx, p[0])) ** 2 + (_x(ctx, gn[i]) - _x(ctx, p[1])) ** 2, maxdist * maxdist) for p in pts]))
+            near = And(ge(maxdist, 0), Or([le(((_x(ctx, ge_[j]) - _x(ctx, p[0])) * sc[0]) ** 2 + ((_x(ctx, gn[i]) - _x(ctx, p[1])) * sc[1]) ** 2, maxdist * maxdist) for p in pts]))
             ctx.claim("cell (i, j) is judged at (easting[j], northing[i])", iff(bool(arr[i, j]), near))
     try:
-        vd.distance_mask((e, n), maxdist)
+        vd.distance_mask((e, n), maxdist, **kw)
         ctx.claim("neither coordinates nor grid rejected", False)
     except ValueError:
         ctx.claim("neither coordinates nor grid rejected", True)
@@ -232,6 +260,8 @@ def _cfg_kn(tier, seed):
         {"layout": "c3", "k": 2, "reduction": "min", "qshape": (2, 1)},
         {"layout": "a4", "k": 4, "reduction": "max", "qshape": (1,)},
         {"layout": "a4", "k": 1, "reduction": "mean", "qshape": (1,), "dshape": (2, 2), "layout_mem": "F"},
+        {"layout": "c3", "k": 1, "reduction": "mean", "qshape": (1,), "ctor": "default"},
+        {"layout": "c3", "k": 2, "reduction": "mean", "qshape": (1,), "ctor": "k_only", "extra": True},
     ]
     if tier == "quick":
         return q
@@ -249,7 +279,7 @@ HARNESSES = [
     Harness(
         "median_distance",
         h_median_distance,
-        lambda tier, seed: [{"layout": "a4", "k": 1}, {"layout": "a4", "k": 3, "shape": (2, 2)}, {"layout": "c3", "k": 1, "proj": ("2", "3")}] + ([{"layout": "a4", "k": 2, "shape": (2, 2)}, {"layout": "b5", "k": 3}, {"layout": "c3", "k": 2}, {"layout": "a4", "k": 3, "proj": ("1/2", "-4")}] if tier == "thorough" else []),
+        lambda tier, seed: [{"layout": "a4", "k": 1}, {"layout": "a4", "k": 3, "shape": (2, 2)}, {"layout": "c3", "k": 1, "proj": ("2", "3")}, {"layout": "c3", "k": 2, "extra": True}, {"layout": "c3", "k": 1, "default_k": True}] + ([{"layout": "a4", "k": 2, "shape": (2, 2)}, {"layout": "b5", "k": 3}, {"layout": "c3", "k": 2}, {"layout": "a4", "k": 3, "proj": ("1/2", "-4")}] if tier == "thorough" else []),
         bounds="similarity family o + s*c_i of a concrete layout (symbolic scale s > 0 and offset o), k_nearest 1-4, 1-D and 2x2 arrays, affine projection",
         stubs=["cKDTree -> k-nearest contract"],
         extra_globals=_globals,
@@ -259,7 +289,7 @@ HARNESSES = [
     Harness(
         "distance_mask",
         h_distance_mask,
-        lambda tier, seed: [{"layout": "a4", "qshape": (1,)}, {"layout": "c3", "qshape": (1, 2), "proj": ("2", "-3")}] + ([{"layout": "b5", "qshape": (2, 1)}, {"layout": "b5", "qshape": (1,), "proj": ("1/2", "5")}, {"layout": "c3", "qshape": (2, 1), "proj": ("-1", "3")}] if tier == "thorough" else []),
+        lambda tier, seed: [{"layout": "a4", "qshape": (1,)}, {"layout": "c3", "qshape": (1, 2), "proj": ("2", "-3")}, {"layout": "c3", "qshape": (2, 1), "extra": True}] + ([{"layout": "b5", "qshape": (2, 1)}, {"layout": "b5", "qshape": (1,), "proj": ("1/2", "5")}, {"layout": "c3", "qshape": (2, 1), "proj": ("-1", "3")}] if tier == "thorough" else []),
         bounds="concrete data layout, symbolic query points (shapes (1,), (1,2), (2,1)) and maxdist (any sign), affine projection with symbolic offsets",
         stubs=["cKDTree -> nearest contract"],
         extra_globals=_globals,
@@ -269,8 +299,8 @@ HARNESSES = [
     Harness(
         "distance_mask_grid",
         h_mask_grid,
-        lambda tier, seed: [{"layout": "a4", "east": [0.1, 1.2, 2.4], "north": [0.2, 2.2]}] + ([{"layout": "c3", "east": [9.5, 11.5], "north": [9.0, 10.5, 12.5], "dims": ("lat", "lon")}] if tier == "thorough" else []),
-        bounds="concrete non-square grid (2x3 / 3x2) with symbolic values, concrete data layout, symbolic maxdist",
+        lambda tier, seed: [{"layout": "a4", "east": [0.1, 1.2, 2.4], "north": [0.2, 2.2]}, {"layout": "c3", "east": [9.5, 11.5], "north": [9.0, 10.5, 12.5], "dims": ("lat", "lon"), "proj": ("2", "-1/2"), "offsets": ("7", "-5/2")}] + ([{"layout": "c3", "east": [9.5, 11.5], "north": [9.0, 10.5, 12.5], "dims": ("lat", "lon")}, {"layout": "a4", "east": [0.1, 1.2, 2.4], "north": [0.2, 2.2], "proj": ("-1", "3")}] if tier == "thorough" else []),
+        bounds="concrete non-square grid (2x3 / 3x2) with symbolic values and default or custom dimension names, concrete data layout, symbolic maxdist, optional affine projection (symbolic offsets) applied to data and grid alike",
         stubs=["cKDTree -> nearest contract"],
         extra_globals=_globals,
         engine={"oneshot": True},
